@@ -102,6 +102,47 @@ def rand_topo_net(rng, nb=None, p_oos_bus=0.12, p_oos_el=0.15, p_open=0.35, dcli
     return net
 
 
+def enrich(net, rng):
+    """structured additions exercising the in-service guards: a closed bus-bus switch between an out-of-service and an
+    in-service bus in either orientation with a non-line branch hanging off the out-of-service bus, out-of-service
+    lines early in the line table next to in-service lines at out-of-service buses, and out-of-service slack candidates
+    (ext_grid / slack gen) as the only slack of a part of the net"""
+    B = [int(b) for b in net.bus.index]
+    if len(B) < 3:
+        return net
+    a, b, c = rng.sample(B, 3)
+    net.bus.at[a, "in_service"] = False
+    net.bus.at[b, "in_service"] = True
+    if rng.random() < 0.5:
+        pp.create_switch(net, a, b, et="b", closed=True, z_ohm=0.0)
+    else:
+        pp.create_switch(net, b, a, et="b", closed=True, z_ohm=0.0)
+    r = rng.random()
+    if r < 0.4:
+        pp.create_transformer_from_parameters(net, a, c, sn_mva=10, vn_hv_kv=20, vn_lv_kv=20, vkr_percent=0.5, vk_percent=5,
+                                              pfe_kw=0, i0_percent=0)
+    elif r < 0.7:
+        pp.create_impedance(net, a, c, rft_pu=0.01, xft_pu=0.02, sn_mva=10)
+    else:
+        pp.create_line_from_parameters(net, a, c, length_km=0.5, r_ohm_per_km=0.25, x_ohm_per_km=0.125, c_nf_per_km=0.0, max_i_ka=0.5)
+    if len(net.line) and rng.random() < 0.7:
+        net.line.at[net.line.index[0], "in_service"] = False
+    # an out-of-service slack candidate at a bus that may have no other slack
+    d = rng.choice(B)
+    if rng.random() < 0.5:
+        pp.create_gen(net, d, p_mw=0.0, vm_pu=1.0, slack=True, in_service=False)
+    else:
+        pp.create_ext_grid(net, d, vm_pu=1.0, in_service=False)
+    if rng.random() < 0.5:
+        # ... and nothing else supplies: all other slacks of the net are at one bus only
+        keep = rng.choice(B)
+        for tab in ("ext_grid", "gen"):
+            for i in net[tab].index:
+                if int(net[tab].at[i, "bus"]) != keep and (tab == "ext_grid" or net.gen.at[i, "slack"]):
+                    net[tab].at[i, "in_service"] = False if rng.random() < 0.7 else net[tab].at[i, "in_service"]
+    return net
+
+
 # ------------------------------------------------------------------ Gallina emitter
 def _b(x):
     return cq.b(bool(x))
@@ -209,10 +250,4 @@ def guard_g07(net):
     why = []
     if len(net.dcline) and net.dcline.in_service.any():
         why.append("dcline")
-    for tab, cols in (("trafo", ("hv_bus", "lv_bus")), ("impedance", ("from_bus", "to_bus")),
-                      ("trafo3w", ("hv_bus", "mv_bus", "lv_bus"))):
-        for i in net[tab].index:
-            if net[tab].at[i, "in_service"] and any(int(net[tab].at[i, c]) not in isb for c in cols):
-                why.append("bridge")
-                break
     return sorted(set(why))
